@@ -5,6 +5,11 @@ package xixi_kv
 func verifHarnessC20() {
 	kp := verifKeyPool(verifParam("pool"), verifParam("klen"))
 	opts := verifOptions(verifDir("src"), "")
+	dir2 := verifDir("copy")
+	if verifParam("reldir") == 1 {
+		// RELATIVE directories whose names occur inside the engine's own file names ("data" in 000000000.data)
+		opts.DirPath, dir2 = "data", "hint"
+	}
 	src, err := Open(opts)
 	verifAssert(err == nil, "C20.open-err")
 	m := newVModel(len(kp.keys))
@@ -16,7 +21,6 @@ func verifHarnessC20() {
 	if len(src.olderFiles) > 0 {
 		verifReach("rotated")
 	}
-	dir2 := verifDir("copy")
 	verifAssert(src.Backup(dir2) == nil, "C20.backup-err")
 	mB := m.clone()
 	verifAssert(!verifFSExists(dir2+"/.lock"), "C20.copy-carries-lock")
